@@ -354,3 +354,44 @@ def min_len(p):
         elif op is sre_c.SUBPATTERN:
             n += min_len(av[3])
     return n
+
+
+def ambiguous_repeats(p):
+    """[text] of unbounded repeats whose body is (or has an alternative that
+    is) itself nothing but an unbounded repeat - the `(x+)*` / `(x+|y)*`
+    shape.  A string of n x's can be split among the iterations in 2**n
+    ways; when the overall match fails, the backtracking engine tries them
+    all (the call does not return for inputs of a few dozen characters)."""
+    out = []
+
+    def unbounded(av):
+        return av[1] == sre_c.MAXREPEAT or av[1] >= 1000
+
+    def solely_unbounded(items):
+        items = [x for x in items if x[0] is not sre_c.AT]
+        if len(items) != 1:
+            return False
+        op, av = items[0]
+        if op in (sre_c.MAX_REPEAT, sre_c.MIN_REPEAT):
+            return unbounded(av)
+        if op is sre_c.SUBPATTERN:
+            return solely_unbounded(av[3])
+        if op is sre_c.BRANCH:
+            return any(solely_unbounded(a) for a in av[1])
+        return False
+
+    def scan(q):
+        for op, av in q:
+            if op in (sre_c.MAX_REPEAT, sre_c.MIN_REPEAT):
+                if unbounded(av) and solely_unbounded(av[2]):
+                    out.append(str(av[2])[:90])
+                scan(av[2])
+            elif op is sre_c.SUBPATTERN:
+                scan(av[3])
+            elif op is sre_c.BRANCH:
+                for a in av[1]:
+                    scan(a)
+            elif op in (sre_c.ASSERT, sre_c.ASSERT_NOT):
+                scan(av[1])
+    scan(p)
+    return out
